@@ -76,6 +76,74 @@ func enclosingIfWhere(p *Prog, n ast.Node, stop ast.Node, pred func(cond ast.Exp
 	return nil
 }
 
+// enumBranch is one arm of a dispatch over an enum-typed value: a case clause of `switch x { case C: }` or
+// one link of the chain `if x == C { } else if x == D { }` (both forms occur after routine refactorings).
+type enumBranch struct {
+	Name string     // name of the constant
+	Node ast.Node   // the clause / the link's block (inspect this)
+	Body []ast.Stmt // the statements of the arm
+}
+
+// enumDispatches returns the dispatches over values of the named enum type found in root (function literals not entered).
+func enumDispatches(p *Prog, in *types.Info, root ast.Node, pkgPath, typeName string) [][]enumBranch {
+	var out [][]enumBranch
+	constName := func(e ast.Expr) string {
+		if cst, ok := objOf(in, e).(*types.Const); ok {
+			return cst.Name()
+		}
+		return ""
+	}
+	linkOf := func(cond ast.Expr) string {
+		be, ok := unparen(cond).(*ast.BinaryExpr)
+		if !ok || be.Op != token.EQL {
+			return ""
+		}
+		if isNamed(in.TypeOf(be.X), pkgPath, typeName) {
+			if n := constName(be.Y); n != "" {
+				return n
+			}
+			return constName(be.X)
+		}
+		return ""
+	}
+	inspectNoLit(root, func(m ast.Node) bool {
+		switch x := m.(type) {
+		case *ast.SwitchStmt:
+			if x.Tag == nil || !isNamed(in.TypeOf(x.Tag), pkgPath, typeName) {
+				return true
+			}
+			var arms []enumBranch
+			for _, s := range x.Body.List {
+				cc := s.(*ast.CaseClause)
+				for _, e := range cc.List {
+					if n := constName(e); n != "" {
+						arms = append(arms, enumBranch{n, cc, cc.Body})
+					}
+				}
+			}
+			out = append(out, arms)
+		case *ast.IfStmt:
+			if linkOf(x.Cond) == "" {
+				return true
+			}
+			if par, ok := p.Parent(x).(*ast.IfStmt); ok && par.Else == ast.Stmt(x) && linkOf(par.Cond) != "" {
+				return true // not the head of the chain
+			}
+			var arms []enumBranch
+			for cur := x; cur != nil; {
+				if n := linkOf(cur.Cond); n != "" {
+					arms = append(arms, enumBranch{n, cur.Body, cur.Body.List})
+				}
+				next, _ := cur.Else.(*ast.IfStmt)
+				cur = next
+			}
+			out = append(out, arms)
+		}
+		return true
+	})
+	return out
+}
+
 func exprMentions(e ast.Node, pred func(ast.Node) bool) bool {
 	found := false
 	inspectNoLit(e, func(m ast.Node) bool {
@@ -503,6 +571,38 @@ func ruleR40(c *Ctx) {
 		}
 		in := info(f)
 		inspectNoLit(f.Body, func(m ast.Node) bool {
+			// the same fact without the builder: `trace.ctx = x` on a task trace
+			if as, isAs := m.(*ast.AssignStmt); isAs && len(as.Lhs) == len(as.Rhs) {
+				for i, l := range as.Lhs {
+					fv := fieldOf(in, l)
+					if fv == nil || !isNamed(fv.Type(), "context", "Context") {
+						continue
+					}
+					sel := unparen(l).(*ast.SelectorExpr)
+					if nt := namedOf(in.TypeOf(sel.X)); nt == nil || nt.Obj().Name() != "taskTrace" {
+						continue
+					}
+					nCtx++
+					okArg := false
+					if id, isId := unparen(as.Rhs[i]).(*ast.Ident); isId {
+						if v, isVar := objOf(in, id).(*types.Var); isVar && isNamed(v.Type(), "context", "Context") {
+							for fi := f; fi != nil; fi = fi.Parent {
+								if isParam(fi, v) {
+									okArg = true
+								}
+							}
+						}
+					}
+					// a context derived from the one already attached (WithValue on the same field) keeps its cancellation
+					if cl, isCall := unparen(as.Rhs[i]).(*ast.CallExpr); isCall && len(cl.Args) > 0 {
+						if g := callee(in, cl); g != nil && g.Pkg() != nil && g.Pkg().Path() == "context" && strings.HasPrefix(g.Name(), "With") && sameRef(in, cl.Args[0], l) {
+							okArg = true
+						}
+					}
+					c.Check(okArg, f, as, "task request context", "the context attached to a task request is the context parameter of the activity goroutine that issues it (so a request racing the cancellation is already cancelled), not a fresh or stored context", "assigned: "+exprStringShort(as.Rhs[i]))
+				}
+				return true
+			}
 			call, ok := m.(*ast.CallExpr)
 			if !ok || len(call.Args) != 1 {
 				return true
@@ -533,18 +633,12 @@ func ruleR40(c *Ctx) {
 	for _, root := range tokenRoots(p) {
 		in := info(root)
 		g := p.Graph(root)
-		inspectNoLit(root.Body, func(m ast.Node) bool {
-			sw, ok := m.(*ast.SwitchStmt)
-			if !ok || sw.Tag == nil || !isNamed(in.TypeOf(sw.Tag), pathBpmn, "ErrHandleMode") {
-				return true
-			}
-			for _, s := range sw.Body.List {
-				cc := s.(*ast.CaseClause)
-				if len(cc.List) != 1 {
-					continue
-				}
-				name := exprString(cc.List[0])
-				region := regionOfStmts(cc.Body)
+		for _, arms := range enumDispatches(p, in, root.Body, pathBpmn, "ErrHandleMode") {
+			for _, arm := range arms {
+				cc := arm.Node
+				ccBody := arm.Body
+				name := arm.Name
+				region := regionOfStmts(ccBody)
 				switch name {
 				case "RetryMode":
 					// every goto (back to the select) in the clause is dominated by a Step() call and lies under IsContinue()
@@ -585,7 +679,7 @@ func ruleR40(c *Ctx) {
 					c.Check(okAll && nGoto >= 1, root, cc, "retry branch steps its counter", "the only way from the retry branch back to the task request is under IsContinue() and after Step() (bounded retries need the counter to move on every retry)", ifEmpty(why, fmt.Sprintf("%d retry jump(s), each guarded by IsContinue() and preceded by Step()", nGoto)))
 					// the clause cannot fall through to the flow handling: every way out is a
 					// return or a backward jump (goto to the request select)
-					entry, ok := g.EntryOfStmts(cc.Body)
+					entry, ok := g.EntryOfStmts(ccBody)
 					if ok {
 						found, w := g.Search(entry, true, func(pt Point, n ast.Node) Action {
 							if n == nil {
@@ -609,7 +703,7 @@ func ruleR40(c *Ctx) {
 						c.Check(!found, root, cc, "retry branch never continues the flow", "after a failed attempt the retry branch either re-requests the task or stops the token; it never falls through to the sequence flows", wit)
 					}
 				case "ExitMode":
-					entry, ok := g.EntryOfStmts(cc.Body)
+					entry, ok := g.EntryOfStmts(ccBody)
 					okExit := false
 					wit := "empty clause: falls through to the sequence flows"
 					if ok {
@@ -637,8 +731,7 @@ func ruleR40(c *Ctx) {
 					c.Check(!stops, root, cc, "skip branch continues", "the SkipMode branch neither returns nor jumps back: the token continues with the activity's outgoing flows", fmt.Sprintf("contains return/goto: %v", stops))
 				}
 			}
-			return true
-		})
+		}
 	}
 }
 
@@ -1499,19 +1592,45 @@ func ruleR46(c *Ctx) {
 				continue
 			}
 			nNew, inLoop := 0, false
-			for _, st := range cl.Clause.Body {
-				inspectNoLit(st, func(z ast.Node) bool {
-					if call, ok := z.(*ast.CallExpr); ok && callee(in, call) != nil && (callee(in, call).Name() == "NewProcess" || callee(in, call).Name() == "StartWith") {
+			var count func(n ast.Node, fin *types.Info, stop ast.Node, d int)
+			count = func(n ast.Node, fin *types.Info, stop ast.Node, d int) {
+				inspectNoLit(n, func(z ast.Node) bool {
+					call, ok := z.(*ast.CallExpr)
+					if !ok || callee(fin, call) == nil {
+						return true
+					}
+					looped := false
+					for cur := p.Parent(call); cur != nil && cur != stop; cur = p.Parent(cur) {
+						switch cur.(type) {
+						case *ast.ForStmt, *ast.RangeStmt:
+							looped = true
+						case *ast.FuncDecl:
+							cur = nil
+						}
+						if cur == nil {
+							break
+						}
+					}
+					if callee(fin, call).Name() == "NewProcess" || callee(fin, call).Name() == "StartWith" {
 						nNew++
-						for cur := p.Parent(call); cur != nil && cur != ast.Node(cl.Clause); cur = p.Parent(cur) {
-							switch cur.(type) {
-							case *ast.ForStmt, *ast.RangeStmt:
-								inLoop = true
-							}
+						if looped {
+							inLoop = true
+						}
+						return true
+					}
+					// a helper of the same type that does the instantiation (extracted method)
+					if cf := p.byObj[callee(fin, call)]; cf != nil && cf.Pkg == f.Pkg && cf.Body != nil && d < 2 && recvNamed(cf.Obj) != nil && recvNamed(cf.Obj) == recvNamed(f.Obj) {
+						before := nNew
+						count(cf.Body, info(cf), cf.Body, d+1)
+						if nNew > before && looped {
+							inLoop = true
 						}
 					}
 					return true
 				})
+			}
+			for _, st := range cl.Clause.Body {
+				count(st, in, cl.Clause, 0)
 			}
 			c.Check(nNew == 2 && !inLoop, f, cl.Clause, "one instantiation per throw message", "handling one throw message creates and starts the waiting process once (one NewProcess and one StartWith, not in a loop)", fmt.Sprintf("NewProcess/StartWith calls: %d, inside a loop: %v", nNew, inLoop))
 		}
